@@ -13,12 +13,15 @@ import (
 	"reflect"
 	"strconv"
 	"strings"
+	"sync"
 
 	v1 "k8s.io/api/core/v1"
 	"k8s.io/apimachinery/pkg/api/resource"
 	metav1 "k8s.io/apimachinery/pkg/apis/meta/v1"
 
 	admgpu "github.com/NVIDIA/KAI-scheduler/pkg/admission/webhook/v1alpha2/gpusharing"
+	gpurequesthandler "github.com/NVIDIA/KAI-scheduler/pkg/binder/plugins/gpusharing/gpu-request"
+	"github.com/NVIDIA/KAI-scheduler/pkg/common/resources"
 	"github.com/NVIDIA/KAI-scheduler/pkg/scheduler/api/pod_info"
 	"github.com/NVIDIA/KAI-scheduler/pkg/scheduler/api/resource_info"
 
@@ -44,6 +47,7 @@ type podSpec struct {
 	Inits      []cont            `json:"initContainers,omitempty"`
 	Volumes    [][2]string       `json:"volumes,omitempty"`
 	Enabled    bool              `json:"gpuSharingEnabled"`
+	Bind       bindPlan          `json:"binder"`
 }
 
 // ---- generators ------------------------------------------------------------
@@ -227,17 +231,71 @@ func genPod(r *u.Rng, malformed bool) podSpec {
 	if whole && placement == 1 && ninit == 0 {
 		ninit = 1
 	}
+	// container names: c<i> / i<i>; sometimes one name is shared by an init and a regular container (the
+	// API server would refuse that, the resolver has to take the init container), rarely a container has no name
+	cname := func(i int) string { return fmt.Sprintf("c%d", i) }
+	iname := func(i int) string { return fmt.Sprintf("i%d", i) }
+	dupName := ""
+	if ninit > 0 && r.Chance(1, 5) {
+		dupName = "shared"
+		di, dc := r.Intn(ninit), r.Intn(max(nc, 1))
+		iname = func(i int) string {
+			if i == di {
+				return dupName
+			}
+			return fmt.Sprintf("i%d", i)
+		}
+		cname = func(i int) string {
+			if i == dc {
+				return dupName
+			}
+			return fmt.Sprintf("c%d", i)
+		}
+	}
+	noName := -1
+	if r.Chance(1, 25) {
+		noName = r.Intn(nc + ninit + 1)
+	}
 	for i := 0; i < nc; i++ {
 		onThis := whole && ((placement != 1 && i == 0) || (placement >= 2 && r.Bool()))
-		p.Containers = append(p.Containers, genCont(r, fmt.Sprintf("c%d", i), onThis, normalised))
+		n := cname(i)
+		if noName == i {
+			n = ""
+		}
+		p.Containers = append(p.Containers, genCont(r, n, onThis, normalised))
 	}
 	for i := 0; i < ninit; i++ {
 		onThis := whole && ((placement == 1 && i == 0) || (placement != 0 && r.Chance(1, 3)))
-		p.Inits = append(p.Inits, genCont(r, fmt.Sprintf("i%d", i), onThis, normalised))
+		n := iname(i)
+		if noName == nc+i {
+			n = ""
+		}
+		p.Inits = append(p.Inits, genCont(r, n, onThis, normalised))
 	}
-	if r.Chance(1, 4) {
-		p.Ann["gpu-fraction-container-name"] = u.Pick(r, []string{"c0", "c1", "c2", "i0", "i1", "nope", ""})
+	// per-container selection: on half of the sharing pods (and a few others) the fraction container is named:
+	// a regular container, an init container, a name carried by both, a name nobody carries, the empty name
+	_, hasF := p.Ann["gpu-fraction"]
+	_, hasM := p.Ann["gpu-memory"]
+	if ((hasF || hasM) && r.Bool()) || r.Chance(1, 8) {
+		k := r.Intn(100)
+		name := ""
+		switch {
+		case k < 33 && nc > 0:
+			name = p.Containers[r.Intn(nc)].Name
+		case k < 68 && ninit > 0:
+			name = p.Inits[r.Intn(ninit)].Name
+		case k < 78 && dupName != "":
+			name = dupName
+		case k < 88:
+			name = u.Pick(r, []string{"nope", "c9", "i7", "C0", "c0 "})
+		case k < 94:
+			name = ""
+		case nc > 0:
+			name = p.Containers[nc-1].Name
+		}
+		p.Ann["gpu-fraction-container-name"] = name
 	}
+	p.Bind = genBindPlan(r)
 	if r.Chance(1, 4) {
 		p.Ann["runai/shared-gpu-configmap"] = u.Pick(r, []string{"pfx", "x-abc1234-shared-gpu"})
 	}
@@ -362,6 +420,48 @@ type obs struct {
 	Idem    bool   `json:"mutate_idempotent"`
 	PfBits  uint64 `json:"parsefloat_bits"`
 	PfErr   bool   `json:"parsefloat_err"`
+
+	MutateOk    bool     `json:"mutate_ok"`
+	BinderValid bool     `json:"binder_validate_accepts"`
+	Selection   string   `json:"fraction_container"` // how the pod selects its fraction container
+	Binder      *bindObs `json:"binder,omitempty"`   // on the mutated pod
+	Legacy      *bindObs `json:"binder_on_unmutated_pod,omitempty"`
+}
+
+// selectionClass says how the pod names its fraction container (for the distribution in the evidence).
+func selectionClass(p podSpec) string {
+	name, ok := p.Ann["gpu-fraction-container-name"]
+	if !ok {
+		return "default(first regular)"
+	}
+	inInit, inReg, regIdx := false, false, -1
+	for _, c := range p.Inits {
+		if c.Name == name {
+			inInit = true
+		}
+	}
+	for i, c := range p.Containers {
+		if c.Name == name && !inReg {
+			inReg, regIdx = true, i
+		}
+	}
+	cls := ""
+	switch {
+	case inInit && inReg:
+		cls = "named: init and regular container share the name (init wins)"
+	case inInit:
+		cls = "named: init container"
+	case inReg && regIdx == 0:
+		cls = "named: regular container 0"
+	case inReg:
+		cls = "named: regular container >0"
+	default:
+		cls = "named: no such container"
+	}
+	if name == "" {
+		cls += " [empty name]"
+	}
+	return cls
 }
 
 // Eval runs the real code on one pod and returns the Coq case term.
@@ -411,7 +511,7 @@ func Eval(p podSpec) (string, obs) {
 
 	m1 := pod.DeepCopy()
 	idem := true
-	_ = plugin.Mutate(m1)
+	merr := plugin.Mutate(m1)
 	m2 := m1.DeepCopy()
 	_ = plugin.Mutate(m2)
 	idem = reflect.DeepEqual(m1, m2)
@@ -420,9 +520,38 @@ func Eval(p podSpec) (string, obs) {
 		Portion: strconv.FormatFloat(g.GpuFractionalPortion(), 'g', -1, 64), Memory: g.GpuMemory(),
 		Idem: idem, PfBits: math.Float64bits(f), PfErr: ferr != nil}
 
-	term := fmt.Sprintf("{| k_enabled := %s; k_pod := %s; k_pf := {| pf_bits := %s; pf_err := %s |}; k_valid := %s; k_req := {| g_type := %s; g_count := %s; g_portion := %s; g_memory := %s |}; k_mut := %s; k_idem := %s; k_hooks := %s |}",
+	// the binder's side, on the pod as admission leaves it
+	o.MutateOk = merr == nil
+	o.BinderValid = gpurequesthandler.ValidateGpuRequests(m1.DeepCopy()) == nil
+	o.Selection = selectionClass(p)
+	bindTerm, legacyTerm := "None", "None"
+	if verr == nil && merr == nil && resources.RequestsGPUFraction(pod) && len(pod.Spec.Containers) > 0 {
+		// the portion string as the scheduler renders the grant (cache.createBindRequest: "%.2f")
+		portion := g.GpuFractionalPortion()
+		if rt == "GpuMemory" && p.Bind.NodeGpuMemory > 0 {
+			portion = float64(g.GpuMemory()) / float64(p.Bind.NodeGpuMemory)
+		}
+		plan := p.Bind
+		if len(plan.Rounds) == 0 {
+			plan.Rounds = []grant{{Ids: []string{"3", "1", "0", "2"}}}
+		}
+		bt, bo := runBinder(plan, m1, g.GetNumOfGpuDevices(), fmt.Sprintf("%.2f", portion))
+		bindTerm, o.Binder = "(Some "+bt+")", &bo
+		if plan.Legacy {
+			// a pod admitted before the webhook wired its containers: only the config-map annotation is there
+			lp := pod.DeepCopy()
+			lp.Annotations[cmAnn] = m1.Annotations[cmAnn]
+			lplan := plan
+			lplan.Rounds = plan.Rounds[:1]
+			lt, lo := runBinder(lplan, lp, g.GetNumOfGpuDevices(), fmt.Sprintf("%.2f", portion))
+			legacyTerm, o.Legacy = "(Some ("+podTerm(lp)+", "+lt+"))", &lo
+		}
+	}
+
+	term := fmt.Sprintf("{| k_enabled := %s; k_pod := %s; k_pf := {| pf_bits := %s; pf_err := %s |}; k_valid := %s; k_req := {| g_type := %s; g_count := %s; g_portion := %s; g_memory := %s |}; k_mut := %s; k_idem := %s; k_hooks := %s; k_mut_ok := %s; k_bvalid := %s; k_bind := %s; k_legacy := %s |}",
 		u.Bool(p.Enabled), before, u.N(o.PfBits), u.Bool(o.PfErr), u.Bool(o.Valid),
-		rt, u.Z(o.Count), u.N(math.Float64bits(g.GpuFractionalPortion())), u.Z(o.Memory), podTerm(m1), u.Bool(idem), hooks)
+		rt, u.Z(o.Count), u.N(math.Float64bits(g.GpuFractionalPortion())), u.Z(o.Memory), podTerm(m1), u.Bool(idem), hooks,
+		u.Bool(o.MutateOk), u.Bool(o.BinderValid), bindTerm, legacyTerm)
 	return term, o
 }
 
@@ -476,6 +605,22 @@ func corpus() []podSpec {
 	}
 	out = append(out, mk(map[string]string{"gpu-fraction": "0.5"}, false))
 	out = append(out, mk(map[string]string{"gpu-memory": "100"}, false))
+	// per-container selection (seeded/C19-4): the fraction container is named; regular, init, a name carried by an
+	// init and a regular container, nobody's name, the empty name; fraction and gpu-memory; a retry with another grant
+	for _, name := range []string{"trainer", "warmup", "fetch-data", "sidecar", "shared", "nope", ""} {
+		for _, ann := range []map[string]string{{"gpu-fraction": "0.5"}, {"gpu-memory": "4096", "gpu-fraction-num-devices": "2"}} {
+			a := map[string]string{"gpu-fraction-container-name": name}
+			for k, v := range ann {
+				a[k] = v
+			}
+			q := podSpec{Ann: a, Name: "train", Enabled: true,
+				Containers: []cont{{Name: "sidecar"}, {Name: "trainer"}, {Name: "shared"}},
+				Inits:      []cont{{Name: "fetch-data"}, {Name: "warmup"}, {Name: "shared"}}}
+			q.Bind = bindPlan{NodeGpuMemory: 16384, Legacy: true,
+				Rounds: []grant{{Ids: []string{"3", "5", "0", "1"}}, {Cdi: true, Ids: []string{"2", "0", "4", "6"}, Portion: "0.25"}}}
+			out = append(out, q)
+		}
+	}
 	return out
 }
 
@@ -483,13 +628,84 @@ func corpus() []podSpec {
 func Run(dir string, seed uint64, n int) error {
 	out := u.NewOut(dir, "C19", "KaiV.Run.C19", "case", 100)
 	root := u.NewRng(seed)
+	quietLogs()
+	// the real code runs on 8 goroutines (every pod is evaluated on its own objects and its own fake client);
+	// cases are registered in generation order, so the output does not depend on the scheduling
+	type job struct {
+		p      podSpec
+		origin string
+		term   string
+		o      obs
+	}
+	jobs := []*job{}
 	emit := func(p podSpec, origin string) {
 		fix(&p)
-		term, o := Eval(p)
-		label := fmt.Sprintf("%s ann=%q enabled=%v containers=%d inits=%d", origin, p.Ann, p.Enabled, len(p.Containers), len(p.Inits))
+		jobs = append(jobs, &job{p: p, origin: origin})
+	}
+	register := func(j *job) {
+		p, origin, term, o := j.p, j.origin, j.term, j.o
+		names := func(cs []cont) []string {
+			ns := []string{}
+			for _, c := range cs {
+				ns = append(ns, c.Name)
+			}
+			return ns
+		}
+		label := fmt.Sprintf("%s ann=%q enabled=%v containers=%d inits=%d names=%q init_names=%q", origin, p.Ann, p.Enabled,
+			len(p.Containers), len(p.Inits), names(p.Containers), names(p.Inits))
+		if o.Binder != nil {
+			label += fmt.Sprintf(" binder: selected=%s#%d(%q)", o.Binder.RefType, o.Binder.RefIndex, o.Binder.RefName)
+			for _, ro := range o.Binder.Rounds {
+				label += fmt.Sprintf(" grant{cdi=%v devices=%q portion=%q ok=%v}", ro.Grant.Cdi, ro.Grant.Ids, ro.Grant.Portion, ro.Ok)
+				for _, e := range ro.Env {
+					if e.Type == o.Binder.RefType && e.Index == o.Binder.RefIndex {
+						label += fmt.Sprintf(" selected container starts with NVIDIA_VISIBLE_DEVICES=%s:%q GPU_PORTION=%s:%q",
+							e.Devices.Kind, e.Devices.V, e.Portion.Kind, e.Portion.V)
+					}
+				}
+			}
+		}
 		out.Add(term, label)
 		out.Count("origin:" + origin)
 		out.Count("accepted:" + strconv.FormatBool(o.Valid))
+		out.Count("mutate_ok:" + strconv.FormatBool(o.MutateOk))
+		out.Count("binder_validate_accepts:" + strconv.FormatBool(o.BinderValid))
+		out.Count("fraction_container(all pods):" + o.Selection)
+		out.Count(fmt.Sprintf("pod_shape:containers=%d,inits=%d", len(p.Containers), len(p.Inits)))
+		if o.Binder != nil {
+			b := o.Binder
+			out.Count("binder:runs(admitted sharing pods)")
+			out.Count("binder:fraction_container:" + o.Selection)
+			out.Count(fmt.Sprintf("binder:selected=%s", b.RefType))
+			if len(p.Containers)+len(p.Inits) > 1 {
+				out.Count("binder:multi-container pod")
+			}
+			out.Count(fmt.Sprintf("binder:rounds=%d", len(b.Rounds)))
+			if len(b.Pre) > 0 {
+				out.Count("binder:config maps exist before PreBind")
+			}
+			for _, ro := range b.Rounds {
+				out.Count(fmt.Sprintf("binder:granted_devices=%d", len(ro.Grant.Ids)))
+				if ro.Grant.Cdi {
+					out.Count("binder:cdi device names")
+				}
+				if !ro.Ok {
+					out.Count("binder:prebind error")
+				}
+				// does any container other than the selected one see the grant (it referenced the maps before)?
+				for _, e := range ro.Env {
+					if (e.Type != b.RefType || e.Index != b.RefIndex) && e.Devices.Kind == "value" && e.Devices.V != "" {
+						out.Count("binder:another container also reads a devices value")
+						break
+					}
+				}
+			}
+			if o.Legacy != nil {
+				out.Count("binder:also run on the unmutated pod")
+			}
+		} else if o.Valid && !o.MutateOk {
+			out.Count("binder:not run, Mutate refused the pod (fraction container not found)")
+		}
 		out.Count("sched_type:" + o.Type)
 		if o.PfErr {
 			out.Count("parsefloat:error")
@@ -520,6 +736,25 @@ func Run(dir string, seed uint64, n int) error {
 			emit(p, "structured")
 		}
 	}
-	out.Stats["rule"] = "pods drawn from one splitmix64 stream (2/3 structured mostly-valid, 1/3 malformed annotation strings from a grammar-directed corpus: decimal, exponent, hex-float, NaN/Inf, signs, whitespace, overflow) after a fixed boundary corpus; non-trivial = carries a GPU annotation or a whole-GPU limit; distinct by (annotations, sharing flag, verdict, container counts)"
+	var wg sync.WaitGroup
+	next := make(chan *job, 64)
+	for w := 0; w < 8; w++ {
+		wg.Add(1)
+		go func() {
+			defer wg.Done()
+			for j := range next {
+				j.term, j.o = Eval(j.p)
+			}
+		}()
+	}
+	for _, j := range jobs {
+		next <- j
+	}
+	close(next)
+	wg.Wait()
+	for _, j := range jobs {
+		register(j)
+	}
+	out.Stats["rule"] = "pods drawn from one splitmix64 stream (2/3 structured mostly-valid, 1/3 malformed annotation strings from a grammar-directed corpus: decimal, exponent, hex-float, NaN/Inf, signs, whitespace, overflow) after a fixed boundary corpus; non-trivial = carries a GPU annotation or a whole-GPU limit; distinct by (annotations, sharing flag, verdict, container counts). Per-container selection: on half of the sharing pods gpu-fraction-container-name names a regular container, an init container, a name shared by both, a name nobody carries or the empty name (distribution keys fraction_container / binder:*); for every pod admission accepts as a sharing request the real GetFractionContainerRef and the binder gpusharing PreBind (fake client, 1-2 grants, with and without pre-existing config maps, with and without CDI names) run on the mutated pod and the environment of every container is resolved from the ConfigMaps read back"
 	return out.Flush()
 }
